@@ -44,6 +44,10 @@ def gen_case(rng, eq):
     else:
         c.update(d=2, polys=[prand(rng, 2, 3, 3) or {(0, 0): 1} for _ in range(3)], pt=[dy(rng), dy(rng)],
                  nus=[rng.choice([1.0, 2.0, 0.5, 4.0, -2.0]), dy(rng)], tmax=1.0)
+    if rng.random() < 0.25:      # candidate solutions of very small / very large magnitude (powers of two: still exact)
+        s = 2.0 ** rng.choice([-40, -24, 24])
+        c["polys"] = [{es: v * s for es, v in p.items()} for p in c["polys"]]
+        c["scaled"] = True
     return c
 
 
